@@ -185,7 +185,9 @@ func randManifest(rnd *rand.Rand, names []string) AMan {
 			am.Meths = append(am.Meths, AMeth{"q", 5 - a, !am.Meths[1].S})
 		}
 	}
-	am.Meths = append(am.Meths, AMeth{"_deploy", 2, false})
+	if rnd.Intn(6) != 0 { // (a contract without _deploy is not called back by ContractManagement)
+		am.Meths = append(am.Meths, AMeth{"_deploy", 2, false})
+	}
 	for _, gn := range groupNames {
 		if rnd.Intn(3) == 0 {
 			am.Groups = append(am.Groups, gn)
@@ -395,7 +397,8 @@ func (r *runner) randomHistory(hi int, rnd *rand.Rand) {
 				default:
 					okOp = okOp && g.tbl[o.C].st == "live"
 				}
-				if okOp && mop != "destroy" && g.blk[o.C] {
+				hasCb := mop != "destroy" && meth(g.man(o.C, o.Mv), "_deploy", 2) != nil
+				if okOp && hasCb && g.blk[o.C] {
 					okOp = false // the callback of a blocked contract is refused
 				}
 				if !okOp && !refuse(fmt.Sprintf("%s %s mv %d req %d", mop, o.C, o.Mv, req)) {
@@ -421,7 +424,7 @@ func (r *runner) randomHistory(hi int, rnd *rand.Rand) {
 					g.tbl[o.C] = gEntry{st: "dead", nef: "n0"}
 					g.blk[o.C] = true
 				}
-				if mop != "destroy" {
+				if hasCb {
 					// _deploy of the new contract state runs now: native frame + callback frame
 					b.push(o)
 					g.stack = append(g.stack, gFrame{name: "M", fl: mfl, native: true, meth: mop},
